@@ -1,6 +1,7 @@
 package harness
 
 import (
+	"encoding/hex"
 	"bytes"
 	"context"
 	"encoding/json"
@@ -64,7 +65,7 @@ func genValue(r *simrt.RNG, live []string) string {
 func genHostileFrame(r *simrt.RNG, live []string) string {
 	switch r.Intn(20) {
 	case 0:
-		return Pick(r, []string{"", " ", "\n", "{", "}", "[", "null", "[]", "0", `"x"`, "{\"jsonrpc\":", "\xff\xfe", "{}{}"})
+		return Pick(r, []string{"", " ", "\n", "{", "}", "[", "null", "[]", "0", `"x"`, "{\"jsonrpc\":", "@hex:fffe", "{}{}"})
 	case 1:
 		return "[" + genHostileFrame(r, live) + "]"
 	}
@@ -242,7 +243,7 @@ func runC10(e *Env, p *Plan) {
 			}
 			e.Probe("hostile-frames-sent")
 			simrt.Rec("hostile", trunc(op.Raw), "", 0)
-			if err := hc.WriteMessage(mt, []byte(op.Raw)); err != nil {
+			if err := hc.WriteMessage(mt, rawBytes(op.Raw)); err != nil {
 				return
 			}
 		}
@@ -366,7 +367,7 @@ func runC10HostileServer(e *Env, p *Plan) {
 					}
 					continue
 				}
-				if c.WriteMessage(mt, []byte(raw)) != nil {
+				if c.WriteMessage(mt, rawBytes(raw)) != nil {
 					return false
 				}
 			}
@@ -554,4 +555,15 @@ func runC10Size(e *Env, p *Plan) {
 		}
 	}
 	w.Teardown()
+}
+
+// rawBytes decodes a hostile frame: "@hex:<hex>" stands for bytes that are not
+// valid UTF-8 (a replay file is JSON and could not carry them verbatim).
+func rawBytes(raw string) []byte {
+	if strings.HasPrefix(raw, "@hex:") {
+		if b, err := hex.DecodeString(raw[5:]); err == nil {
+			return b
+		}
+	}
+	return []byte(raw)
 }
